@@ -283,6 +283,50 @@ def random_jobs(rng, n, tid0):
     return jobs
 
 
+def pieces_jobs(rng, n, tid0):
+    """bottom = a wildcard with 2..3 non-contiguous wild bits; top = a group whose members are pieces of the bottom
+    (the bottom with those bits fixed to some of the 2^k values: all of them, all but one, the two extremes, a random
+    subset) - only the complete set of pieces contains the bottom"""
+    jobs, t = [], tid0
+    for _ in range(n):
+        plat = rng.choice(["ios", "nxos"])
+        k = rng.choice([2, 2, 3])
+        low = rng.randint(0, 24)
+        mask = [0] * (32 - low) + [1] * low
+        pos = rng.sample(range(0, 32 - low - 1), k)
+        for i in pos:
+            mask[i] = 1
+        b = clean(dict(base=[rng.randint(0, 1) for _ in range(32)], mask=mask))
+        vals = list(range(2 ** k))
+        how = rng.choice(["all", "all-but-one", "extremes", "subset", "all"])
+        if how == "all-but-one":
+            vals.remove(rng.choice(vals))
+        elif how == "extremes":
+            vals = [0, 2 ** k - 1]
+        elif how == "subset":
+            vals = rng.sample(vals, rng.randint(1, len(vals)))
+        order = sorted(pos)
+        mems = []
+        for v in vals:
+            m = dict(base=list(b["base"]), mask=list(b["mask"]))
+            for j, i in enumerate(order):
+                m["mask"][i] = 0
+                m["base"][i] = (v >> (k - 1 - j)) & 1
+            mems.append(m)
+        rng.shuffle(mems)
+        cls = rng.choice(["Address", "Address", "AddressAg"]) if plat == "nxos" else "Address"
+        f = spellings_ace if cls == "Address" else spellings_member
+        mt = [rng.choice(f(m, plat)) for m in mems]
+        bt = rng.choice(f(b, plat))
+        if cls == "Address":
+            name = "addrgroup G" if plat == "nxos" else "object-group G"
+            jobs.append(dict(tid=t, act="SubnetOf", cls=cls, plat=plat, btext=bt, bmem=None, ttext=name, tmem=mt, origin="pieces"))
+        else:
+            jobs.append(dict(tid=t, act="InGroup", plat=plat, btext=bt, tmem=mt, origin="pieces"))
+        t += 1
+    return jobs
+
+
 def run(tier, seed):
     rng = random.Random(seed * 15485863 + 13)
     mcs = [core.mc("MC_AddrSem", "MC_AddrSem" if tier == "quick" else "MC_AddrSem_W4"), core.mc("MC_AddrObj")]
@@ -292,6 +336,7 @@ def run(tier, seed):
         pairs = [p for p in pairs if rs.random() < 0.8]
     jobs = from_pairs(rng, pairs, tier, 1)
     jobs += random_jobs(rng, 10000 if tier == "quick" else 60000, len(jobs) + 1)
+    jobs += pieces_jobs(rng, 600 if tier == "quick" else 20000, len(jobs) + 1)
     jobs = core.cap(jobs, 40000 if tier == "quick" else 400000, rng)
     ev_lists = core.pmap(exec_job, jobs)
     events = [e for evs in ev_lists for e in evs]
